@@ -9,6 +9,7 @@ import WhVerif.Lemmas.C01Input
 import WhVerif.Lemmas.C01InputSort
 import WhVerif.Lemmas.C01CkptMain
 import WhVerif.Lemmas.C01U32
+import WhVerif.Model.C01Query
 /-!
 # C01 — property theorems (about the model `WhVerif.C01` of `PedigreeDPTable`)
 
@@ -560,5 +561,109 @@ example : tableAt32 exampleLong 1 = (tableAt exampleLong 1).map enc32 :=
   no_overflow_tables exampleLong (by decide +kernel) 1 (by decide)
 example : throws32 exampleLong = false := by decide +kernel
 example : throws32 exampleInst = false ∧ ubAll exampleInst < INF32 := by decide +kernel
+
+/-! ## the result object: accessor calls in any order, any number of times (Model/C01Query.lean) -/
+
+/-- **The accessors are pure getters of the one stored solution**: a sequence of calls of `get_super_reads`,
+`get_optimal_cost`, `get_optimal_partitioning` on one constructed table, in ANY order and with ANY repetitions,
+answers every call with what that accessor answers on the freshly constructed object, and leaves `optimal_score` and
+`index_path` as they were (only the column iterator moves). -/
+theorem queries_pure (I : Inst) (T : Table) (qs : List Query) :
+    (T.run I qs).2 = qs.map (T.answer I) ∧ (T.run I qs).1.score = T.score ∧ (T.run I qs).1.path = T.path := by
+  induction qs generalizing T with
+  | nil => simp [Table.run]
+  | cons q qs ih =>
+    have hstep : (T.step I q).2 = T.answer I q ∧ (T.step I q).1.score = T.score ∧ (T.step I q).1.path = T.path := by
+      cases q <;> simp [Table.step]
+    have hans : ∀ q', (T.step I q).1.answer I q' = T.answer I q' := by
+      intro q'
+      cases q' <;> simp [Table.answer, hstep.2.1, hstep.2.2]
+    have := ih (T.step I q).1
+    simp only [Table.run, List.map_cons]
+    refine ⟨?_, ?_, ?_⟩
+    · rw [this.1, hstep.1]
+      congr 1
+      exact List.map_congr_left (fun q' _ => hans q')
+    · rw [this.2.1, hstep.2.1]
+    · rw [this.2.2, hstep.2.2]
+
+/-- the state the iterator is in when the calls start does not matter (`get_super_reads` rewinds first): two objects
+with the same score and path answer every call sequence alike — e.g. two tables alive at the same time, built from
+the same `ReadSet`/`Pedigree`, queried interleaved -/
+theorem queries_iterator_irrelevant (I : Inst) (T T' : Table) (hs : T.score = T'.score) (hp : T.path = T'.path)
+    (qs : List Query) : (T.run I qs).2 = (T'.run I qs).2 := by
+  rw [(queries_pure I T qs).1, (queries_pure I T' qs).1]
+  apply List.map_congr_left
+  intro q _
+  cases q <;> simp [Table.answer, hs, hp]
+
+/-- **Every combination of answers a client can collect is an optimal solution with matching witness**: on every
+input the constructor accepts and solves, whatever the order and number of accessor calls, ANY cost answer is the true
+minimum of the (Ped)MEC objective and ANY partition answer together with ANY transmission-vector answer achieves
+exactly that cost, and the super reads of any answer are `get_alleles` of the returned partition under the returned
+transmission vector. -/
+theorem queries_witness_optimal (I : Inst) (h : WF I) (T : Table) (hT : mkTable I = some T) (qs : List Query)
+    (c : Nat) (β : List Bool) (sr : List (Option (List (Nat × Nat)))) (τ : List Nat)
+    (hc : Answer.cost c ∈ (T.run I qs).2) (hβ : Answer.partitioning β ∈ (T.run I qs).2)
+    (hs : Answer.superReads sr τ ∈ (T.run I qs).2) :
+    some c = optCost I ∧ totalCost I β τ = some c ∧ β.length = I.nreads ∧ τ.length = I.ncols ∧
+    sr = (List.range I.ncols).map (fun col => getAlleles I col (restrict β (I.activeAt col)) (τ.getD col 0)) := by
+  rw [(queries_pure I T qs).1] at hc hβ hs
+  obtain ⟨q1, _, h1⟩ := List.mem_map.1 hc
+  obtain ⟨q2, _, h2⟩ := List.mem_map.1 hβ
+  obtain ⟨q3, _, h3⟩ := List.mem_map.1 hs
+  cases q1 <;> simp [Table.answer] at h1
+  cases q2 <;> simp [Table.answer] at h2
+  cases q3 <;> simp [Table.answer] at h3
+  unfold mkTable at hT
+  split at hT
+  · rename_i p c0 hp hc0
+    cases hT
+    simp only at h1 h2 h3
+    subst h1 h2
+    obtain ⟨h3a, h3b⟩ := h3
+    subst h3a h3b
+    have hw : ckptWitness I = some (partOf I p, p.map (·.2)) := by
+      unfold ckptWitness ckptWitnessK
+      unfold ckptPath at hp
+      rw [hp]; rfl
+    have hcode := ckpt_dp_witness_code I h _ _ hw
+    refine ⟨?_, ?_, hcode.1, hcode.2.1, ?_⟩
+    · rw [← dp_optimal I h, hc0]
+    · rw [hcode.2.2.2, hc0]
+    · by_cases h0 : I.ncols = 0
+      · have hlen := hcode.2.1
+        rw [List.length_map] at hlen
+        simp [superReadsOf, hlen, h0]
+      · exact ckpt_superreads I h grayOrd grayOrd_admissible _ (isqrt_pos _ (by omega)) p hp
+  · cases hT
+
+/-- non-vacuity on `exampleLong`: the constructed object, and a call sequence that asks for the partition first, then
+the super reads, the cost, and partition and super reads again -/
+theorem exampleLong_table :
+    mkTable exampleLong = some { score := 1, path := [(1, 0), (1, 0), (5, 0), (2, 0), (1, 0)], iter := 0 } := by
+  decide +kernel
+example : ∀ T, mkTable exampleLong = some T →
+    (T.run exampleLong [.partitioning, .superReads, .cost, .partitioning, .superReads]).2
+      = [.partitioning [true, false, true, false],
+         .superReads [some [(1, 0)], some [(0, 1)], some [(1, 0)], some [(1, 0)], some [(1, 0)]] [0, 0, 0, 0, 0],
+         .cost 1, .partitioning [true, false, true, false],
+         .superReads [some [(1, 0)], some [(0, 1)], some [(1, 0)], some [(1, 0)], some [(1, 0)]] [0, 0, 0, 0, 0]] := by
+  intro T hT
+  rw [exampleLong_table] at hT
+  cases hT
+  rw [(queries_pure exampleLong _ _).1]
+  have h1 : partOf exampleLong [(1, 0), (1, 0), (5, 0), (2, 0), (1, 0)] = [true, false, true, false] := by
+    decide +kernel
+  have h2 : superReadsOf exampleLong [(1, 0), (1, 0), (5, 0), (2, 0), (1, 0)]
+      = [some [(1, 0)], some [(0, 1)], some [(1, 0)], some [(1, 0)], some [(1, 0)]] := by decide +kernel
+  simp [Table.answer, h1, h2]
+example : ((Table.mk 1 [(1, 0)] 0).run exampleLong [.superReads, .cost]).2
+    = ((Table.mk 1 [(1, 0)] 7).run exampleLong [.superReads, .cost]).2 :=
+  queries_iterator_irrelevant exampleLong _ _ rfl rfl _
+example : ∀ T, mkTable exampleLong = some T → ∀ qs c β sr τ, Answer.cost c ∈ (T.run exampleLong qs).2 →
+    Answer.partitioning β ∈ (T.run exampleLong qs).2 → Answer.superReads sr τ ∈ (T.run exampleLong qs).2 →
+    totalCost exampleLong β τ = some c :=
+  fun T hT qs c β sr τ hc hβ hs => (queries_witness_optimal exampleLong exampleLong_wf T hT qs c β sr τ hc hβ hs).2.1
 
 end WhVerif.Props.C01
